@@ -25,7 +25,7 @@ def handle (op : String) (args : List String) : Option String :=
       some (showRat (((apeRots ref est).map so3Margin).foldl (fun a b => if b < a then b else a) 1))
   | "plan", rest => do
       let (o, _) ← readCommonOpts rest
-      some (showPlan (apePlan o))
+      some (showPlan o (apePlan o))
   | "run", rest => do
       let (o, rest) ← readCommonOpts rest
       let (P, rest) ← Pipeline.readParams rest
